@@ -99,7 +99,7 @@ let handle ws = match ws with
   | ["cbcpad"; dir; key; iv; data; _] ->
     let k = bytes_of_hex key and iv = bytes_of_hex iv and d = bytes_of_hex data in
     if dir = "enc" then both (hx (cbc_padding_encrypt (implE k) iv d)) (hx (cbc_pad_enc_spec (specE k) iv d))
-    else both (opt hx (cbc_padding_decrypt (implD k) iv d)) (opt hx (cbc_pad_dec_spec (specD k) iv d))
+    else both (opt hx (sm4_cbc_padding_decrypt (implD k) iv d)) (opt hx (cbc_pad_dec_spec_strict (specD k) iv d))
   | ["ctr"; w; key; ctr; data; _] ->
     let k = bytes_of_hex key and c = bytes_of_hex ctr and d = bytes_of_hex data in
     if w = "128" then
@@ -150,7 +150,7 @@ let handle ws = match ws with
         (Some (cbc_pad_enc_spec (specE k) iv m))
     else
       stream_both (run_stream ~query:true (cbc_init iv) (cbc_decrypt_update (implD k)) (cbc_decrypt_finish (implD k)) cs)
-        (cbc_pad_dec_spec (specD k) iv m)
+        (cbc_pad_dec_spec_strict (specD k) iv m)
   | ["s_ctr"; w; key; ctr; chunks; _] ->
     let k = bytes_of_hex key and c = bytes_of_hex ctr and cs = chunks_of chunks in
     let m = List.concat cs in
